@@ -37,7 +37,8 @@ const SPAN_FIELDS_A: &[&str] = &["n", "we\"ird", "a.b", "type", "later", "uni\u{
 const SPAN_FIELDS_B: &[&str] = &["back\\slash", "tab\tname", "s", "later"];
 const SPAN_FIELDS_C: &[&str] = &["plain", "other"];
 const EVENT_FIELDS_A: &[&str] = &["message", "v", "we\"ird", "a.b", "k2"];
-const EVENT_FIELDS_B: &[&str] = &["v", "ctl\u{1}name", "w"];
+// ("log.offset": a field of the application that merely starts like the names tracing-log uses)
+const EVENT_FIELDS_B: &[&str] = &["v", "ctl\u{1}name", "w", "log.offset"];
 static METAS: [Metadata<'static>; 6] = [
     Metadata::new("sp\"an", "tar\"get", Level::INFO, None, None, None, FieldSet::new(SPAN_FIELDS_A, identify_callsite!(&CS[0])), Kind::SPAN),
     Metadata::new("n\u{e4}me\u{2028}\\", "app::m\u{f6}d", Level::INFO, None, None, None, FieldSet::new(SPAN_FIELDS_B, identify_callsite!(&CS[1])), Kind::SPAN),
